@@ -155,7 +155,9 @@ def check_conditional(case, ctx):
         gf = gi.copy() if label == "int_array" else float(gi[0])
         okf, vf = ctx.call(f"float_given:{family}:{method}", getattr(cond, method), a, given=gf)
         okg, vg = ctx.call(f"{label}:{family}:{method}", getattr(cond, method), a, given=gv)
-        if okf and okg and not eq(vg, vf, 1e-12, atol):
+        # (1e-9 as for the comparisons with the reference: the int and float routes to the dependence value may differ in
+        # the last ulp, and von Mises quantiles come from scipy's numerical inversion, good to ~1e-10)
+        if okf and okg and not eq(vg, vf, 1e-9, atol):
             ctx.violation(f"int_given:{label}:{family}:{method}", f"given={np.asarray(gv).tolist()} ({label}) -> {np.asarray(vg).tolist()} but the same values as float -> {np.asarray(vf).tolist()}")
             break
 
